@@ -262,17 +262,61 @@ def run(facts, tier):
                 t5.violate(f"literal/{s}", f"the YAML reader resolves the plain scalar `{s}` to a non-string, but the writer would print the string \"{s}\" unquoted: it reads back as another value")
         if len(special) < 12:
             t5.violate("anchor", f"only {len(special)} special scalar spellings found in the YAML reader")
-        # numbers: the writer over-approximates `looks like a number` by a leading digit after an optional '-'
-        cl = callees(mq["body"]) + [str((n.get("path") or {}).get("def")) for n in find(mq["body"], lambda n: n.get("k") == "Path")]
-        ok = any(c.endswith("is_ascii_digit") for c in cl) and any(c.endswith("strip_prefix") for c in cl)
-        # the over-approximation must not be narrowed: the closure that tests the first byte has no further condition
+        # numbers: the writer over-approximates `looks like a number`: some closure of must_quote is a disjunction one of
+        # whose alternatives is *just* "the first byte is an ASCII digit" (no further conjunct that would narrow it)
+        inits = {}
+        for st in find(mq["body"], lambda n: n.get("k") == "Let" and n.get("init") is not None):
+            for b_ in find(st["pat"], lambda n: n.get("k") == "Bind"):
+                inits[b_["id"]] = st["init"]
+
+        def mentions_digit(e, depth=0):
+            names = callees(e) + [str((n.get("path") or {}).get("def")) for n in find(e, lambda n: n.get("k") == "Path")]
+            if any(x.endswith("is_ascii_digit") for x in names):
+                return True
+            if depth < 2:
+                for n in find(e, lambda n: n.get("k") == "Path" and n["path"].get("id") in inits):
+                    if mentions_digit(inits[n["path"]["id"]], depth + 1):
+                        return True
+            return False
+
+        def disjuncts(e):
+            e = strip(e)
+            if e.get("k") == "Binary" and e["op"] == "||":
+                return disjuncts(e["l"]) + disjuncts(e["r"])
+            return [e]
+        ok = False
         for c in find(mq["body"], lambda n: n.get("k") == "Closure"):
-            cc = callees(c) + [str((n.get("path") or {}).get("def")) for n in find(c, lambda n: n.get("k") == "Path")]
-            if any(x.endswith("is_ascii_digit") for x in cc) and not find(c, lambda n: n.get("k") == "Closure" and n is not c):
-                extra = [x.split("::")[-1] for x in callees(c) if x.split("::")[-1] not in ("first", "is_some_and", "is_ascii_digit")] + [n["op"] for n in find(c, lambda n: n.get("k") == "Binary" and n["op"] in ("&&", "||"))]
-                if extra:
-                    ok = False
-                    t5.notes.append(f"the leading-digit test is combined with {extra}")
+            for d in disjuncts(c["body"]):
+                if mentions_digit(d) and any(x.endswith("::first") for x in callees(d)) and not find(d, lambda n: n.get("k") == "Binary" and n["op"] == "&&") \
+                        and not any(x.split("::")[-1] in ("all", "any", "iter", "bytes") for x in callees(d)):
+                    ok = True
+        # signs: every sign character the reader's number parsers accept must be stripped by the writer's number test
+        ps = facts.hir_find(r"^jaq_fmts::read::yaml::parse_sign$", "jaq_fmts")
+        rsigns = set()
+        for f in ps:
+            for n in find(f["body"], lambda n: n.get("k") == "Lit" and "char" in n.get("lit", {})):
+                rsigns.add(n["lit"]["char"])
+            for m in find(f["body"], lambda n: n.get("k") == "Match"):
+                for a in m["arms"]:
+                    for x in find(a["pat"], lambda n: n.get("k") == "Lit" and "char" in n.get("lit", {})):
+                        rsigns.add(x["lit"]["char"])
+        wsigns = set()
+        for n in find(mq["body"], lambda n: n.get("k") == "MethodCall" and n["m"]["name"] in ("strip_prefix", "starts_with")):
+            for a in n["args"]:
+                b_ = lit_bytes(a)
+                if b_ and len(b_) == 1:
+                    wsigns.add(b_.decode())
+        for m in find(mq["body"], lambda n: n.get("k") == "Match"):
+            for a in m["arms"]:
+                for x in find(a["pat"], lambda n: n.get("k") == "Lit" and "byte" in n.get("lit", {})):
+                    wsigns.add(chr(x["lit"]["byte"]))
+        if not rsigns:
+            t5.violate("signs-anchor", "sign characters of the YAML reader's number parsers not found (parse_sign)")
+        for sg in sorted(rsigns):
+            okk = sg in wsigns
+            t5.examined(("sign", sg), True, {"reader_accepts_sign": sg, "writer_number_test_strips_it": okk})
+            if not okk:
+                t5.violate(f"sign/{sg}", f"the YAML reader parses plain scalars with a leading `{sg}` as numbers, but the writer's looks-like-a-number test does not consider that sign: the string \"{sg}1\" is written unquoted and reads back as a number")
         t5.examined("numbers", True, {"strings_starting_like_a_number_are_quoted": ok})
         if not ok:
             t5.violate("numbers", "must_quote no longer quotes strings that start like a number")
